@@ -21,6 +21,7 @@ use std::sync::Arc;
 use std::task::{Context, Poll};
 
 const SPIN_LIMIT: usize = 3000;
+const BACKLOG: usize = 3000;
 
 pub fn frame_tok(f: &Frame) -> String {
     match f {
@@ -55,7 +56,12 @@ pub fn parse_frame_tok(t: &str) -> Frame {
 
 fn parse_stream(t: &str) -> VecDeque<SAns<Frame>> {
     if t == "_" || t.is_empty() { return VecDeque::new(); }
-    t.split(',').map(|a| if let Some(f) = a.strip_prefix("i:") { SAns::Item(parse_frame_tok(f)) } else if a == "x" { SAns::Err } else { SAns::Pending }).collect()
+    // `i:<frame>*`: a standing backlog (the frame again and again, 3000 times)
+    t.split(',').flat_map(|a| {
+        if let Some(f) = a.strip_prefix("i:") {
+            match f.strip_suffix('*') { Some(f) => vec![SAns::Item(parse_frame_tok(f)); BACKLOG], None => vec![SAns::Item(parse_frame_tok(f))] }
+        } else if a == "x" { vec![SAns::Err] } else { vec![SAns::Pending] }
+    }).collect()
 }
 
 /// Mock ids: requestor sockets use the router's client id for both halves; replier sockets are numbered by
@@ -105,6 +111,8 @@ pub struct Obs {
     /// how many child events had happened when the last executed poll began
     pub last_poll_start: usize,
     pub closed: bool,
+    /// how many child events had happened when the registration channel was closed
+    pub closed_at: Option<usize>,
 }
 
 pub fn run_scenario(events: &[&str]) -> Obs {
@@ -115,11 +123,11 @@ pub fn run_scenario(events: &[&str]) -> Obs {
     let waker = wk.clone().into();
     let mut cx = Context::from_waker(&waker);
     let mut segs: Vec<String> = vec![];
-    let mut o = Obs { scripts: BTreeMap::new(), rest_points: vec![], line: String::new(), annotated: vec![], panicked: None, spun: false, done: false, events: vec![], n_clients: 0, n_servers: 0, last_pending: false, sleeping_for_good: false, last_any_child_pending: false, last_sink_pending: false, polled_after_close: false, closed: false, server_enq_at: vec![], last_poll_start: 0 };
+    let mut o = Obs { scripts: BTreeMap::new(), rest_points: vec![], line: String::new(), annotated: vec![], panicked: None, spun: false, done: false, events: vec![], n_clients: 0, n_servers: 0, last_pending: false, sleeping_for_good: false, last_any_child_pending: false, last_sink_pending: false, polled_after_close: false, closed: false, closed_at: None, server_enq_at: vec![], last_poll_start: 0 };
     let mut first = true;
     // every turn of the router's loop consumes a scripted answer or a registration: a poll that makes more child calls
     // than a generous multiple of all there is to consume is spinning
-    let spin_limit = SPIN_LIMIT + 10 * events.iter().map(|e| e.matches(',').count() + 1).sum::<usize>();
+    let spin_limit = SPIN_LIMIT + 10 * events.iter().map(|e| e.matches(',').count() + 1 + BACKLOG * e.matches('*').count()).sum::<usize>();
     for ev in events {
         if o.done || o.panicked.is_some() { o.annotated.push(ev.split('@').next().unwrap().to_string()); continue; }
         if !ev.starts_with("poll") { o.annotated.push(ev.to_string()); }
@@ -138,6 +146,7 @@ pub fn run_scenario(events: &[&str]) -> Obs {
         } else if *ev == "close" {
             tx.close_channel();
             o.closed = true;
+            o.closed_at = Some(o.events.len());
         } else if ev.starts_with("poll") {
             let ws: Vec<_> = std::mem::take(&mut log.lock().unwrap_or_else(|e| e.into_inner()).wakers);
             for (_, _, w) in ws { w.wake(); }
@@ -480,6 +489,12 @@ pub fn monitor(o: &Obs) -> Result<(), String> {
             }
         }
     }
+    // C16: bounded whatever the peers do: once the channel is closed the router finishes with what it has taken; it does not
+    // go on serving for as long as requestors (or the replier) have frames ready (c16_reqrep_shutdown_completes)
+    if let Some(at) = o.closed_at {
+        let more = o.events[at..].iter().filter(|e| matches!(e, Ev::StreamItem(..))).count();
+        if more > 1024 { return Err(format!("C16: after the registration channel was closed the router took {more} more frames from its peers{}: it finishes only when they run dry, so shutdown hangs on a topic whose peers keep sending", if o.done { " before it finished" } else { " and has not finished" })); }
+    }
     // C16: … and when it finishes, every reply it had handed to a requestor's sink has been flushed (c16_reqrep_done_flushed)
     if o.done {
         let mut unflushed: BTreeMap<usize, usize> = BTreeMap::new();
@@ -652,6 +667,9 @@ pub fn run(cfg: &Cfg) {
             cases.push(format!("rr +s_/{quiet} +c_/{},p,p,p,p poll poll poll poll +s_/p,p,p,p +c_/i:m7000,p,p poll poll poll", reqs.join(",")));
             cases.push(format!("rr +sf=RE/{quiet},p,p,p,p +c_/{},p,p,p,p poll poll poll poll +s_/p,p,p,p +c_/i:m7000,p,p poll poll poll", reqs.join(",")));
         }
+        // shutdown while a requestor (or the replier) has a standing backlog: the router finishes with what it has taken
+        for c in ["rr +s_/p,p,p +c_/p,i:m9* poll close poll poll poll", "rr +c_/p,i:m9* poll close poll poll", "rr +c_/p +s_/p,i:m9[cid=0]* poll close poll poll poll",
+                  "rr +s_/p,p,p +c_/i:m1,p,i:m9* +c_/p,i:m8* poll close poll poll poll"] { cases.push(c.to_string()); }
         let mut r = Rng::new(cfg.seed, "reqrep");
         for _ in 0..cfg.n(4000, 200_000) {
             let bias = *r.pick(&[0u64, 0, 3, 8]);
